@@ -1,5 +1,5 @@
 (* C11: declarative reference graph between items (independent of topsort.rs's collectors), the
-   verdict on an emitted order, and the finding classes of the unchanged tree. All computable. *)
+   verdict on an emitted order, and the finding classes of the current tree. All computable. *)
 From Coq Require Import String.
 From TS Require Import Model.Str Model.Types.
 
@@ -68,20 +68,14 @@ Definition perm_ok (things out : list ritem) : bool :=
 Definition good_C11 (things out : list ritem) : bool :=
   perm_ok things out && (if acyclic things then topo_ok out else true).
 
-(* ---- which references the collectors of the unchanged tree can see ---- *)
-(* identifiers get_dependencies_from_type looks up while it collects for the item named [own]:
-   Simple / Generic ids under Vec, array, slice, Option, HashMap nesting, and the outermost id of
-   each argument of a Generic whose own id is a known item OTHER than [own] (the item's name sits in
-   the `seen` set for the whole collection, so `seen.insert(id)` fails for a Generic named like the
-   item itself and its arguments are never looked at: struct Foo<T> { f: Foo<Bar> } misses Bar) *)
-Fixpoint visible_idents (known : str -> bool) (own : str) (t : rtype) : list str :=
-  match t with
-  | RSimple id => [id]
-  | RGeneric id ps => id :: (if known id && negb (str_eqb id own) then map rtype_id ps else [])
-  | RVec x | ROption x | RArray x _ | RSlice x => visible_idents known own x
-  | RHashMap k v => visible_idents known own k ++ visible_idents known own v
-  | RPrim _ => []
-  end.
+(* ---- which references the collectors can see ---- *)
+(* identifiers get_dependencies_from_type looks up while it collects for an item: since the repair of
+   its Generic arm (every argument of every generic type is followed like a type in its own right,
+   whatever the generic type is and however deeply the argument is nested) these are exactly
+   [type_idents]: every Simple / Generic id at any depth, through Vec, array, slice, Option, HashMap
+   and generic arguments.  (Before the repair only the outermost id() of the arguments of a generic
+   type that is itself an item was looked up - class C11-generic-arg-depth - and that id() was the
+   fixed string "Vec", "Option", "u8" ... for a special type - class C11-special-id-collision.) *)
 
 (* the types whose identifiers are looked up.  An algebraic enum is walked variant by variant: the
    payload type of a tuple variant, the field types of a struct variant (since the repair of
@@ -100,10 +94,9 @@ Definition visible_types (it : ritem) : list rtype :=
 Definition is_known (things : list ritem) (n : str) : bool :=
   existsb (fun it => str_eqb (original (item_id it)) n) things.
 
-(* the edge a -> b is one the collectors record: a visible identifier equals b's ORIGINAL name *)
-Definition edge_visible (things : list ritem) (a b : ritem) : bool :=
-  mem_str (original (item_id b))
-          (flat_map (visible_idents (is_known things) (original (item_id a))) (visible_types a)).
+(* the edge a -> b is one the collectors record: an identifier of a walked type equals b's ORIGINAL name *)
+Definition edge_visible (a b : ritem) : bool :=
+  mem_str (original (item_id b)) (flat_map type_idents (visible_types a)).
 
 Definition has_dup_names (things : list ritem) : bool :=
   existsb (fun a => negb (Nat.eqb (List.length (filter (fun b => str_eqb (original (item_id a)) (original (item_id b))) things)) 1)) things.
@@ -119,21 +112,24 @@ Fixpoint has_array_slice (t : rtype) : bool :=
   | _ => false
   end.
 
-(* classification of the first declarative edge the collectors do not record *)
+(* classification of the first declarative edge the collectors do not record.  Either b is mentioned
+   under its RENAMED name only (the lookup table is keyed by id.original), or b's original name is
+   mentioned but not in a walked type: the only types that are not walked are the payloads of the
+   variants of a RustEnum::Unit (`RustEnum::Unit(_) => {}`).  The parser builds RustEnum::Unit only from
+   enums all of whose variants are unit variants (Spec/C07BackSpec.v enum_wf, proved of every parsed
+   value), so the second case is a shape of the IR the real tool never produces, not a finding. *)
 Definition edge_class (a b : ritem) : option string :=
   if negb (mem_str (original (item_id b)) (mentions a)) then cls "C11-renamed"
-  else cls "C11-generic-arg-depth".
+  else cls "C11-unit-enum-payload".
 
 (* classification of a recorded edge a -> b (a <> b) that is no reference of a at all.  The
-   collectors look names up without regard to what they denote: (1) a generic parameter of a struct
-   that is named like item b (struct A<T> { f: T } next to struct T); (2) the id() of a special type
-   standing as a direct argument of a typeshared generic - "Vec", "Option", "HashMap", "[]", "&[]",
-   "String", "u8", ... - when an item b carries that name.  Such a phantom edge can close a cycle the
+   collectors look names up without regard to what they denote; the one case left is a generic
+   parameter of a struct or enum that is named like item b (struct A<T> { f: T } next to struct T):
+   b's original name is an identifier of a type of a, yet no mention, so it is one of a's own generic
+   parameters (Proofs/C11Link.v phantom_is_param_shadow).  Such a phantom edge can close a cycle the
    references do not have; toposort_impl's cycle `return` then emits a definition before one it
    refers to although the reference graph is acyclic. *)
-Definition phantom_class (a b : ritem) : option string :=
-  if mem_str (original (item_id b)) (item_generics a) then cls "C11-generic-param-shadow"
-  else cls "C11-special-id-collision".
+Definition phantom_class (a b : ritem) : option string := cls "C11-generic-param-shadow".
 
 Definition known_C11 (things : list ritem) : option string :=
   if has_dup_names things then cls "C11-duplicate-names"
@@ -143,7 +139,7 @@ Definition known_C11 (things : list ritem) : option string :=
        match pairs with
        | [] => None
        | (a, b) :: r =>
-         if refers a b && negb (edge_visible things a b) then edge_class a b
-         else if edge_visible things a b && negb (same_item a b) && negb (refers a b) then phantom_class a b
+         if refers a b && negb (edge_visible a b) then edge_class a b
+         else if edge_visible a b && negb (same_item a b) && negb (refers a b) then phantom_class a b
          else scan r
        end) (list_prod things things).
